@@ -110,7 +110,12 @@ pub fn translate(input: &[u8], supply: &Supply, from: Option<Fmt>, to: Fmt) -> O
 
 /// Translates a sequence of inputs through one `Translator`.
 pub fn translate_many(inputs: &[(Vec<u8>, Supply, Option<Fmt>)], to: Fmt) -> (Vec<Result<(), String>>, Vec<u8>) {
-	let mut w = FaultWriter::new(None, vec![]);
+	translate_many_pieces(inputs, to, vec![])
+}
+
+/// The same into a writer that accepts only the given short pieces (cycled).
+pub fn translate_many_pieces(inputs: &[(Vec<u8>, Supply, Option<Fmt>)], to: Fmt, pieces: Vec<usize>) -> (Vec<Result<(), String>>, Vec<u8>) {
+	let mut w = FaultWriter::new(None, pieces);
 	let mut results = vec![];
 	{
 		let mut t = xt::Translator::new(&mut w, to.xt());
